@@ -265,6 +265,15 @@ KNOWN_FILTERS = {
 PROBE_NS = "lib_C07_ns"
 
 
+def glyphs_of(layer):
+    """the glyphs of a layer in an order that does not depend on the interpreter's string-hash seed: ufoLib2 layers are
+    insertion-ordered dicts; defcon hands out its names as a set, so they are sorted here"""
+    gl = list(layer)
+    if type(layer).__module__.startswith("ufoLib2"):
+        return gl
+    return sorted(gl, key=lambda g: g.name)
+
+
 def class_name(name):
     """the naming rule of ufo2ft.filters.getFilterClass"""
     n = name.replace(" ", "")
@@ -282,7 +291,10 @@ def spec_of(fdict):
         return None
     if (mod == "probe") != (fdict.get("namespace") == PROBE_NS):
         return None
-    return {"kind": class_name(n), "pre": bool(fdict.get("pre", False))}
+    d = {"kind": class_name(n), "pre": bool(fdict.get("pre", False))}
+    if mod == "skipExportGlyphs":
+        d["skip"] = sorted((fdict.get("args") or [[]])[0])      # names this filter deletes from the glyph set
+    return d
 
 
 def _my_copy(g):
@@ -322,7 +334,7 @@ def describe(font, inplace=False, want_width=False):
     layers = []
     for layer in font.layers:
         gl = []
-        for g in layer:
+        for g in glyphs_of(layer):
             d = {"name": g.name, "contours": len(g) > 0, "comps": [c.baseGlyph for c in g.components],
                  "unicodes": bool(g.unicodes), "dc": 0x25CC in g.unicodes,
                  "anchors": [a.name for a in g.anchors]}
@@ -347,7 +359,7 @@ def describe(font, inplace=False, want_width=False):
             gl.append(d)
         layers.append({"name": layer.name, "glyphs": gl})
     consts = lib.get(MATH_CONSTANTS)
-    dcname = next((g.name for g in dflt if 0x25CC in g.unicodes), "uni25CC")
+    dcname = next((g.name for g in glyphs_of(dflt) if 0x25CC in g.unicodes), "uni25CC")
     cats = lib.get(CATS_KEY)
     gm = lib.get(COLOR_MAPPING)
     fea = re.sub(r"(?m)#.*$", "", font.features.text or "")
